@@ -196,6 +196,29 @@ def check_csleep_after(rep, tier, stats, samples):
             rep.inconc('csrel %s: %r' % (rid, e))
 
 
+def g_transparent(tier):
+    """S; csleep(k); T  against  S; T  where T tests what S computed (zero tests, sign tests, register reuse): a csleep changes nothing
+    but time, so the two programs are equivalent for all inputs - whatever the generator remembers across the csleep"""
+    import families3
+    class Pair:
+        def __init__(self, pid, a, b): self.pid, self.a, self.b = pid, a, b
+        def c(self): return self.a.c()
+        def gnames(self): return self.a.gnames()
+    X = V('X')
+    tests = [('if', lambda z: If(V(z), A(V('sc'), C(1)), A(V('sc'), C(2)))), ('if0', lambda z: If(B('==', V(z), C(0)), A(V('sc'), C(1)))), ('while', lambda z: While(V(z), Block([A(V(z), C(0)), A(V('sc'), C(1))]))),
+             ('tern', lambda z: A(V('sc'), Tern(V(z), C(1), C(2)))), ('copy', lambda z: A(V('sb'), V(z))), ('add', lambda z: A(V('sb'), B('+', V(z), C(1))))]
+    for (sn, st, z), k, (tn, t) in itertools.product(families3.flag_setters(), (2, 3, 4, 5, 6, 7, 8, 9, 10), tests):
+        if sn == 'va=f': continue
+        if z in ('wa', 'ha') and tn in ('copy', 'add'): continue
+        pid = 'cs-transparent/%s/%d/%s' % (sn, k, tn)
+        if tier == 'quick' and k not in (7, 10) and not stable_pick(pid, 100, 25): continue
+        mk = lambda with_cs: mkprog(pid, [st()] + ([Raw('csleep', k)] if with_cs else []) + [t(z)], pre=HW_PRE)
+        yield Pair(pid, mk(False), mk(True))
+        if tn == 'if':
+            mk2 = lambda with_cs: mkprog(pid + '/twice', [st()] + ([Raw('csleep', k), Raw('csleep', k)] if with_cs else []) + [t(z)], pre=HW_PRE)
+            yield Pair(pid + '/twice', mk2(False), mk2(True))
+
+
 def run(tier):
     rep = common.Report('C18', tier, 'translation_validation')
     common.build_driver()
@@ -205,10 +228,16 @@ def run(tier):
     progs = list(g_hw(tier))
     variants = [('O0', ['-O0'], None), ('O1', ['-O1'], None), ('O2', ['-O2'], None), ('O3', ['-O3'], None)]
     st2, smp, results = runner.relational(rep, progs, variants, 'O0', opts=dict(events=True, hw=sorted(HW_ADDRS)))
+    tstats = collections.Counter()
+    for lvl in (['-O1'], ['-O0']):
+        st3, smp3, _ = runner.relational(rep, list(g_transparent(tier)), [('without', [], None), ('with-csleep', [], lambda p: p.b.c())], 'without', args_base=lvl, opts=dict(hw=sorted(HW_ADDRS)), reject_is_violation=True)
+        for k2 in ('accepted', 'decided', 'queries', 'variants', 'identical_by_text', 'disagreements_checked'): tstats[k2] += st3[k2]
+        tstats['solver_s'] += st3['solver_s']
+    stats['transparent_programs'] = tstats['accepted']; stats['transparent_decided'] = tstats['decided']; stats['transparent_queries'] = tstats['queries']
     rep.cov = dict(programs=st2['accepted'] + stats['csleep_decided'] + stats['csrel_decided'], disagreements_checked=st2['disagreements_checked'], samples=samples + smp[:4],
                    csleep=dict(stats), hw_programs=st2['accepted'], variant_pairs=st2['variants'], identical_by_text=st2['identical_by_text'],
                    decided_by_solver=st2['decided'], unsupported=st2['unsupported'], queries=st2['queries'] + stats['csleep_queries'] + stats['csrel_queries'], solver_s=round(st2['solver_s'], 1),
-                   bounds=dict(csleep='all 1-, 2- and selected 3-statement csleep sequences, arguments 0..12, in main and in an inline function, -O0..-O3; relational: 17 statements before/after csleep(k) (k=2..10 thorough; 7 and a stable half of 2,3,10 quick) and before two of them, against the same program without the csleep, every jointly feasible path pair',
+                   bounds=dict(csleep='all 1-, 2- and selected 3-statement csleep sequences, arguments 0..12, in main and in an inline function, -O0..-O3; relational: 17 statements before/after csleep(k) (k=2..10 thorough; 7 and a stable half of 2,3,10 quick) and before two of them, against the same program without the csleep, every jointly feasible path pair; transparency: flag-setting statement / csleep(k) k=2..10 / test of the value, against the same program without the csleep, final state for all inputs, -O0 and -O1',
                                events='reads/writes of TIA addresses, NOP executions; compared as ordered (kind, address, value) sequences on every path'), stats=dict(st2))
     rep.assumptions = ['as C02', 'volatile events = accesses to the hardware addresses WSYNC/COLUBK/INPT4/DUMMY and NOP executions; hardware registers are not memory',
                        'N/Z flags are not register values in the sense of the property (csleep(7) uses PLA)', 'cycle table from the 6502 data sheet, zero-page DUMMY, no page crossing inside a csleep sequence']
